@@ -113,6 +113,7 @@ mod time_cache;
 mod topic;
 mod transform;
 mod types;
+#[cfg(libp2p_verif)] #[doc(hidden)] pub mod verif_gs_unit;
 
 #[cfg(feature = "metrics")]
 pub use metrics::Config as MetricsConfig;
